@@ -239,6 +239,16 @@ fn stream_line() -> impl Strategy<Value = Vec<Vec<u8>>> {
             vec![s.render()]
         }),
         1 => (200usize..600, hi()).prop_map(|(n, h)| vec![vec![h; n]]),
+        // a fragment group longer than any capacity of the no-allocator build (the tool is a std program)
+        1 => (5usize..9, 40usize..90, any::<u8>()).prop_map(|(n, sz, salt)| {
+            (1..=n).map(|k| {
+                let mut p: Vec<u8> = (0..sz).map(|j| armor::ALPHABET[(j * 5 + k + salt as usize) & 63]).collect();
+                if k == 1 {
+                    p[0] = b'8';
+                }
+                build::line(n as u32, k as u32, Some((salt % 10) as u32), b"A", &p, 0)
+            }).collect()
+        }),
         // odd line endings
         1 => (any::<u32>(), proptest::collection::vec(any::<u8>(), 24), prop::sample::select(vec![&b"\r\r"[..], b" \r", b"\t", b"\r \r", b"\x0b"])).prop_map(|(m, n, end)| {
             let mut l = tagged_position(m & 0x3fff_ffff, &n);
